@@ -114,8 +114,8 @@ func (b *crashBatch) Write() error {
 func (b *crashBatch) WriteSync() error { return b.Write() }
 
 // Close of an unwritten batch discards it (deferred by IndexBlock; also runs while the death panic unwinds).
-func (b *crashBatch) Close() error               { return b.b.Close() }
-func (b *crashBatch) GetByteSize() (int, error)  { return b.b.GetByteSize() }
+func (b *crashBatch) Close() error              { return b.b.Close() }
+func (b *crashBatch) GetByteSize() (int, error) { return b.b.GetByteSize() }
 
 // KVDecoder turns physical keys/values of the indexer database into the tokens of the traces.
 // It knows the physical layout (prefix 1: hash -> TxResult, prefix 2: (height, eth index) -> hash);
@@ -126,7 +126,9 @@ type KVDecoder struct {
 }
 
 // noVal is the value slot of a write of the (height, index) family (TLC wants uniform record shapes).
-func noVal() trace.M { return trace.M{"h": int64(0), "txIdx": int64(0), "ethIdx": int64(0), "failed": false} }
+func noVal() trace.M {
+	return trace.M{"h": int64(0), "txIdx": int64(0), "ethIdx": int64(0), "failed": false}
+}
 
 // Write describes one physical key/value pair as a uniform record:
 // fam "H": hash -> (h, txIdx, ethIdx, failed) ; fam "I": (h, i) -> hash ; fam "?": anything else.
